@@ -2,6 +2,7 @@ SPECIFICATION Spec
 CONSTANT Chains = 64
 INVARIANT SetLaw
 INVARIANT LimitLaw
+INVARIANT OnceIsNothing
 INVARIANT QueryLaw
 INVARIANT NeedsDT8
 CHECK_DEADLOCK FALSE
